@@ -329,3 +329,76 @@ pub fn replay_search(opts: &Opts) -> i32 {
                                 "distinct": lines, "nontrivial": with_mate + depths, "mismatches": 0, "samples": samples, "extra": {}}));
     0
 }
+
+// ------------------------------------------------------------------------------------------------
+// C14: the comparison operators of Score on a grid (validated by spec/ScoreTrace.tla)
+// ------------------------------------------------------------------------------------------------
+
+pub fn record_score(opts: &Opts) -> i32 {
+    let seed = opts.num("seed", 1);
+    let extra = opts.num("random", 64);
+    let mut rng = rng(seed, 1414);
+    let mut grid: Vec<Score> = vec![Score::Min, Score::Max];
+    let mut mates: Vec<u16> = vec![0, 1, 2, 3, 100, 65534, 65535];
+    let mut raws: Vec<i32> = vec![i32::MIN, i32::MIN + 1, -1000, -1, 0, 1, 1000, i32::MAX - 1, i32::MAX];
+    for _ in 0..extra {
+        mates.push(rng.gen());
+        raws.push(rng.gen());
+    }
+    for &m in &mates {
+        grid.push(Score::BlackMateIn(m));
+        grid.push(Score::WhiteMateIn(m));
+    }
+    for &r in &raws {
+        grid.push(Score::Raw(r));
+    }
+    let mut out = std::io::BufWriter::new(std::fs::File::create(opts.str("out", "score.ndjson")).unwrap());
+    let ord = |o: std::cmp::Ordering| match o {
+        std::cmp::Ordering::Less => -1,
+        std::cmp::Ordering::Equal => 0,
+        std::cmp::Ordering::Greater => 1,
+    };
+    let mut pairs = 0u64;
+    for &a in &grid {
+        let rows: Vec<Value> = grid.iter().map(|&b| {
+            pairs += 1;
+            json!({"b": score_json(b), "cmp": ord(a.cmp(&b)), "pcmp": a.partial_cmp(&b).map_or(-9, ord), "eq": a == b,
+                   "lt": a < b, "le": a <= b, "gt": a > b, "ge": a >= b,
+                   "max": score_json(a.max(b)), "min": score_json(a.min(b))})
+        }).collect();
+        writeln!(out, "{}", json!({"ev": "cmp_block", "a": score_json(a), "rows": rows})).unwrap();
+    }
+    out.flush().unwrap();
+    out_line("SUMMARY", &json!({"counts": {"scores": grid.len(), "pairs": pairs}, "distinct": pairs, "nontrivial": pairs, "mismatches": 0, "samples": [], "extra": {}}));
+    0
+}
+
+/// searches that are given enough polls for very many deepening passes on O(1) trees (C07)
+pub fn stress_search(opts: &Opts) -> i32 {
+    let roots = read_json_file(&opts.str("roots", "/verif/spec/roots.json"));
+    let tags = opts.str("tags", "tiny");
+    let polls = opts.num("polls", 70000);
+    let mut out = std::io::BufWriter::new(std::fs::File::create(opts.str("out", "stress.ndjson")).unwrap());
+    let mut runs = 0u64;
+    let mut passes = 0u64;
+    for r in roots.as_array().unwrap() {
+        if !r["tags"].as_array().unwrap().iter().any(|x| tags.split(',').any(|s| x == s)) {
+            continue;
+        }
+        let fen = r["fen"].as_str().unwrap();
+        let Ok(board) = fen.parse::<Board>() else { continue };
+        op!("stress-search {fen} polls={polls}");
+        let t = CountingTimeout::at(polls);
+        let run = run_search(&board, &ThreeFold::new(), &t, false);
+        let n = run.events.iter().filter(|e| matches!(e, Event::Commit { .. })).count() as u64;
+        passes += n;
+        runs += 1;
+        writeln!(out, "{}", json!({"fen": fen, "passes": n, "terminated": run.terminated, "panicked": run.panicked})).unwrap();
+        if run.panicked {
+            // the panic hook has already printed the PANIC line with the operation
+        }
+    }
+    out.flush().unwrap();
+    out_line("SUMMARY", &json!({"counts": {"runs": runs, "passes": passes}, "distinct": runs, "nontrivial": runs, "mismatches": 0, "samples": [], "extra": {}}));
+    0
+}
